@@ -282,6 +282,17 @@ func cmdCheck(args []string) int {
 				if o.Status != "sat" {
 					broken = append(broken, fmt.Sprintf("vacuous precondition (%s) in %s", o.Status, shortKey(vc.Key)))
 				}
+			} else if strings.Contains(o.Name, "#reach[") {
+				// a `reachable` clause: SAT is the proof (a witness execution prefix exists); UNSAT is a violation
+				nObl++
+				byKind["reach"]++
+				if o.Status == "sat" {
+					nDis++
+					bySolver[o.Solver]++
+				} else {
+					failed = append(failed, o)
+					failedVC[o] = vc
+				}
 			} else if o.Status == "sat" {
 				reach = true
 			}
